@@ -315,14 +315,37 @@ fn gen_statements(fields: &Fields, encoding: Encoding) -> syn::Result<proc_macro
             let tag  = quote!(#tag let __p779 = __d777.position(););
             let name = &field.ident;
 
-            quote! {{
+            let action = quote! {{
                 #tag
                 match #decode_fn(__d777, __ctx777) {
                     Ok(__v777) => #name = #value,
                     #unknown_var_err
                     Err(e) => return Err(e)
                 }
-            }}
+            }};
+
+            // A tagged optional field also accepts the bare null which a
+            // version without this field puts into the index gap.
+            let optional =
+                if let Some(p) = field.attrs.codec().and_then(CustomCodec::to_nil_path) {
+                    Some(quote!(#p().is_some()))
+                } else if is_option(&field.typ, |_| true) {
+                    Some(quote!(true))
+                } else if field.attrs.codec().is_some() {
+                    None
+                } else {
+                    let ty = &field.typ;
+                    Some(quote!(<#ty as minicbor::Decode::<Ctx>>::nil().is_some()))
+                };
+
+            match optional {
+                Some(opt) if field.attrs.tag().is_some() => quote! {{
+                    if #opt && minicbor::data::Type::Null == __d777.datatype()? {
+                        __d777.skip()?
+                    } else #action
+                }},
+                _ => action
+            }
     })
     .collect::<Vec<_>>();
 
